@@ -138,23 +138,58 @@ def exec_wire(work, binary, wscn):
     return violations, (ok, sum(1 for e in evs if e["ev"] == "step"), evs)
 
 
+def srv_story(events, upto=None):
+    lines = []
+    for n, e in enumerate(events, 1):
+        if e["ev"] == "reset":
+            lines.append("%2d reset: listener receive limit %d, allowed origins: %s" % (n, e["limit"], e["origins"]))
+            continue
+        i = {k: v for k, v in e["in"].items() if v not in (0, "", False, [])}
+        lines.append("%2d %s" % (n, json.dumps(i)))
+        lines.append("      -> %s" % json.dumps({k: e[k] for k in ("status", "proto", "reply", "frame", "closed", "hsreply") if e.get(k) not in (0, "", False, [], None)}))
+        if upto and n >= upto:
+            break
+    return "\n".join(lines)
+
+
+def exec_srv(work, binary, sscn):
+    """front end scenarios (real WebsocketServer / RawSocketServer on the loopback interface) validated against TraceSrv.tla"""
+    byid = {s["id"]: s for s in sscn}
+    violations = []
+    tf, crashes = run_exec(work, binary, sscn, "srv", test="TestSrvExec")
+    for c in crashes:
+        line = next((l for l in c["stderr"].splitlines() if l.startswith("panic:") or l.startswith("fatal error:")), "?")
+        violations.append({"kind": "srv-crash", "scn": c["scn"], "scenario": byid[c["scn"]], "stderr": c["stderr"], "sig": {"op": "crash"},
+                           "summary": "the process hosting the router's network front end died in scenario %s: %s" % (c["scn"], line)})
+    evs = read_trace(tf)
+    ok, nev, fails = validate_all(work, "TraceSrv", "TraceSpec", {}, tf, "valsrv", story=srv_story, explain=wire_explain)
+    for f in fails:
+        ev = f.get("event") or {}
+        violations.append({"kind": "srv-rejected", "scn": f["scn"], "scenario": byid[f["scn"]], "step": f["step"], "explain": f["explain"],
+                           "story": f["story"].split("\n"), "sig": {"op": (ev.get("in") or {}).get("op")},
+                           "summary": "front end scenario %s: what the client observed is not a behaviour of Srv.tla at step %d (%s)" % (
+                               f["scn"], f["step"], json.dumps({k: v for k, v in (ev.get("in") or {}).items() if v not in (0, "", False, [])}))})
+    return violations, (ok, sum(1 for e in evs if e["ev"] == "step"), evs)
+
+
 def run_wire(prop, spec, tier, seed, work, replay):
     import families
     binary = build_harness(work)
     violations = []
     st = {"distinct": 0, "generated": 0, "wall_s": 0.0}
     consts_core = {"Deviations": tla_set([]), "Classes": tla_set(families.ALL_CLASSES)}
-    wscn, cscn = [], []
+    wscn, cscn, sscn = [], [], []
     if replay:
         rp = json.load(open(replay))
-        (wscn if rp.get("kind", "").startswith("wire") else cscn).append(rp["scenario"])
+        (wscn if rp.get("kind", "").startswith("wire") else sscn if rp.get("kind", "").startswith("srv") else cscn).append(rp["scenario"])
     else:
         # leg 1
         cfg = "SPECIFICATION MCSpec\nCONSTANT MaxSteps = %d\nINVARIANTS C15_Inbound C15_Outbound C15_Limits C15_Ended\nCHECK_DEADLOCK FALSE\n" % (5 if tier == "quick" else 6)
         st = model_check(work, "MCWire", cfg, timeout=3000, tag="mcwire")
         st2 = run_wire_conc(work, tier)
+        st3 = model_check(work, "Srv", "SPECIFICATION MCSSpec\nINVARIANTS S_FrameType\nPROPERTIES S_Offered S_Origin S_Closed\nCHECK_DEADLOCK FALSE\n", timeout=1200, tag="mcsrv")
         for k in st:
-            st[k] = st[k] + st2[k]
+            st[k] = st[k] + st2[k] + st3[k]
         # leg 2a: octet level scenarios
         n = 400 if tier == "quick" else 5000
         wscn = gen_scenarios(work, "GenWire", {"Depth": 9, "Big": "FALSE"}, n, 9, seed * 7919, "genwire", "%s.wire%d." % (prop, seed))
@@ -162,6 +197,8 @@ def run_wire(prop, spec, tier, seed, work, replay):
             wscn += gen_scenarios(work, "GenWire", {"Depth": 7, "Big": "TRUE"}, 40, 7, seed * 7919 + 5, "genwirebig", "%s.wirebig%d." % (prop, seed))
         # leg 2a': schedules of the two writers of a connection (WireConc.tla), granted one write call at a time
         wscn += race_scenarios(work, prop, tier, seed)
+        # leg 2c: the network front ends (real listeners on the loopback interface)
+        sscn = gen_scenarios(work, "GenSrv", {"Depth": 5}, 150 if tier == "quick" else 1500, 5, seed * 7919 + 77, "gensrv", "%s.srv%d." % (prop, seed))
         # leg 2b: the routing scenarios of the core family over every transport and serializer
         per = 45 if tier == "quick" else 700
         for gi, (bag, mode, depth) in enumerate(INTERCHANGE):
@@ -172,9 +209,12 @@ def run_wire(prop, spec, tier, seed, work, replay):
                 s["epilogue"] = True
             cscn += over_transports(part, seed + gi)
     byid = {s["id"]: s for s in wscn + cscn}
-    cov_w, cov_c = (0, 0, []), (0, 0, [])
+    cov_w, cov_c, cov_s = (0, 0, []), (0, 0, []), (0, 0, [])
     if wscn:
         v, cov_w = exec_wire(work, binary, wscn)
+        violations += v
+    if sscn:
+        v, cov_s = exec_srv(work, binary, sscn)
         violations += v
     if cscn:
         tf, crashes = run_exec(work, binary, cscn, "ex")
@@ -238,12 +278,13 @@ def run_wire(prop, spec, tier, seed, work, replay):
         g, o = split_by_scn(cov_c[2])
         pick = next((s for s in o if byid[s].get("transports")), o[0])
         samples.append({"scenario": pick, "transports": byid[pick].get("transports"), "story": scenario_story(g[pick]).split("\n")[:40]})
-    cov = {"states": st["distinct"], "transitions": st["generated"], "traces_validated_against_impl": cov_w[0] + cov_c[0],
-           "samples": samples, "evaluations": cov_w[1] + cov_c[1], "distinct_nontrivial": len(shapes) + families.distinct_shapes(cov_c[2]),
+    cov = {"states": st["distinct"], "transitions": st["generated"], "traces_validated_against_impl": cov_w[0] + cov_c[0] + cov_s[0],
+           "samples": samples, "evaluations": cov_w[1] + cov_c[1] + cov_s[1], "front_end_scenarios": len(sscn), "distinct_nontrivial": len(shapes) + families.distinct_shapes(cov_c[2]),
            "rule": "(a) TLC simulation of GenWire.tla generates octet-level rawsocket scenarios (handshake octets, frames of every type around the negotiated "
                    "limits, truncated frames, PING/PONG, router-side sends around the client's limit) executed against transport.AcceptRawSocket over an "
                    "in-memory pipe and - with nexus as the connecting side, the harness answering the handshake octet by octet - against "
-                   "transport.ConnectRawSocketPeer over loopback TCP, validated by TLC against TraceWire.tla; (a') the interleavings of the write calls of the "
+                   "transport.ConnectRawSocketPeer over loopback TCP, validated by TLC against TraceWire.tla; (c) TLC simulation of GenSrv.tla generates upgrade requests / handshakes and short sessions run against the real WebsocketServer and "
+                   "RawSocketServer on the loopback interface, validated against TraceSrv.tla; (a') the interleavings of the write calls of the "
                    "peer's two goroutines enumerated by TLC from WireConc.tla are imposed on the real peer through a gated connection; (b) routing scenarios generated from Gen.tla are executed with every network "
                    "session attached over rawsocket or websocket with JSON, MessagePack or CBOR and validated against the same Trace.tla as in-process runs. "
                    "distinct = distinct (wire step shape, outcome) plus distinct (input kind, received message kinds) of the routing runs",
